@@ -143,13 +143,13 @@ Proof. exact checksum_lenient_values. Qed.
 Print Assumptions C10_checksum_lenient_values.
 
 (* the CheckSum field need not be last: a field after it is outside the sum and is returned *)
-Theorem C10_trailing_field_unchecked_refuted :
+Theorem C10_fields_after_checksum_refuted :
   exists raw m n, decode TBL BS raw true = Ok (Some m, n, Some raw)
     /\ ct_get [49] (msg_tags m) = Some (VStr [101; 118; 105; 108])
     /\ last (frame_fields raw) [] = field [49] [101; 118; 105; 108]
     /\ well_framedb raw = false.
 Proof. exact trailing_field_unchecked_refuted. Qed.
-Print Assumptions C10_trailing_field_unchecked_refuted.
+Print Assumptions C10_fields_after_checksum_refuted.
 
 (* the part of "no single-byte corruption is returned" that holds: one byte replaced inside the
    value of a field that is neither a CheckSum field nor the last field, the field structure
@@ -211,11 +211,26 @@ Theorem C10_stall_raising_frame : run2 w_blen = (w_blen ++ w_good ++ w_good, [],
 Proof. exact stall_raising_refuted. Qed.
 Print Assumptions C10_stall_raising_frame.
 
+Theorem C10_stall_fragment :
+  dec_summary (w_frag ++ w_good) = Some (false, 0%Z, false)
+  /\ run2 w_frag = (w_frag ++ w_good ++ w_good, [], [0; 0]).
+Proof. exact stall_fragment_refuted. Qed.
+Print Assumptions C10_stall_fragment.
+
+(* the opposite failure: a frame with a wrong BeginString makes decode report the whole buffer
+   as consumed, so a good frame received in the same read is discarded with it *)
+Theorem C10_drop_buffer_refuted :
+  dec_summary (w_badbs ++ w_good) = Some (false, zlen (w_badbs ++ w_good), false)
+  /\ reader_run TBL BS [] [w_badbs ++ w_good] = ([], [], [0])
+  /\ length (delivered (reader_run TBL BS [] [w_badbs; w_good])) = 1%nat.
+Proof. exact drop_buffer_refuted. Qed.
+Print Assumptions C10_drop_buffer_refuted.
+
 (* "repeated decoding of any buffer terminates" is false (D8): a negative BodyLength with a
    correct checksum is handed to the session for ever *)
-Theorem C10_reader_nontermination_refuted :
+Theorem C10_livelock_refuted :
   status (reader_step TBL BS [] (w_neg ++ w_good)) = 2
   /\ residual (reader_step TBL BS [] (w_neg ++ w_good)) = w_neg ++ w_good
   /\ length (delivered (reader_step TBL BS [] (w_neg ++ w_good))) = S (length (w_neg ++ w_good)).
 Proof. exact spin_negative_refuted. Qed.
-Print Assumptions C10_reader_nontermination_refuted.
+Print Assumptions C10_livelock_refuted.
